@@ -6,6 +6,7 @@ static void c02_world_copy(World *dst, const World *src) {
 static void c02_world_free(World *w) { for (int i = 0; i < w->nctx; i++) free(w->ctx[i].p); w->nctx = 0; }
 
 /* the continuation K: fingerprint battery, a few more random commands, use of everything alive, battery again */
+static int g_c02_end_restart, g_c02_startup_loc;
 static void c02_continuation(World *w, Buf *b, int nops, uint8_t out[32]) {
     g_resp_md = EVP_MD_CTX_new(); EVP_DigestInit_ex(g_resp_md, EVP_sha256(), NULL); g_resp_count = 0;
     uint8_t d[32];
@@ -24,6 +25,11 @@ static void c02_continuation(World *w, Buf *b, int nops, uint8_t out[32]) {
     c02_world_free(w);   /* contexts were consumed (loaded+flushed or refused) */
     battery(w, b, 0, d);
     cmd_begin(b, ST_NO_SESSIONS, CC_ReadClock); run(b);
+    /* C02 ends the continuation with Shutdown(STATE), a power cycle and Startup(STATE) from the locality the history started at:
+       what the TPM remembers about its Startup (the locality-3 indicator) decides whether that Startup is accepted */
+    if (g_c02_end_restart) { int loc = g_locality; g_locality = g_c02_startup_loc;
+        Rsp s = tpm2_shutdown(b, 1); if (s.rc == 0) { tpm2_powercycle(); tpm2_startup(b, 1); cmd_begin(b, ST_NO_SESSIONS, CC_PCR_Read); b_u32(b, 1); b_u16(b, ALG_SHA256); b_u8(b, 3); b_u8(b, 1); b_u8(b, 0); b_u8(b, 0); run(b); }
+        g_locality = loc; }
     unsigned l = 32; EVP_DigestFinal_ex(g_resp_md, out, &l); EVP_MD_CTX_free(g_resp_md); g_resp_md = NULL;
 }
 
@@ -97,7 +103,8 @@ static void scen_c02(int histories, int maxops, int every) {
         w_reset(&w);
         g_mono_ns = (1 + rnd(100000)) * 1000000ULL; g_real_ns = 1700000000000000000ULL;
         const char *prof = h % 3 == 0 ? NULL : (h % 3 == 1 ? PROFILE_DEFAULT_V1 : PROFILE_CUSTOM);
-        tpm2_fresh(prof); tpm2_startup(&b, 0);
+        g_c02_startup_loc = h % 4 == 2 ? 3 : 0;   /* one history in four is started from locality 3 */
+        tpm2_fresh(prof); g_locality = g_c02_startup_loc; tpm2_startup(&b, 0); g_locality = 0; g_c02_end_restart = 1;
         tr("fresh profile=%d", h % 3);
         int n = 8 + rnd(maxops);
         for (int i = 0; i < n; i++) {
@@ -109,5 +116,6 @@ static void scen_c02(int histories, int maxops, int every) {
         c02_twin(&w, &b, n, 0);
         c02_twin(&w, &b, n + 1, 1 + rnd(2));   /* repeated suspend */
     }
+    g_c02_end_restart = 0; g_c02_startup_loc = 0;
     w_reset(&w); b_free(&b);
 }
